@@ -32,7 +32,10 @@ fn tied<T: U>(r: &mut Rng, n: usize) -> Vec<T> {
 
 fn plans<T: U + Ord>(out: &mut Out, r: &mut Rng, count: usize) {
     for c in 0..count {
-        let n = r.below(7);
+        // mostly short vectors; every eighth one is LONG (20..120 values with many ties): std's sort routines switch
+        // algorithm with the length, and an unstable sort only shows on long inputs with ties
+        let n = if c % 8 == 7 { 20 + r.below(100) } else { r.below(7) };
+        if n >= 20 { out.stat("plans-long-20-to-120"); }
         set_ids(n);
         let vs: Vec<T> = tied(r, n);
         let plan = Plan::from_values_to_sort(&vs);
@@ -177,7 +180,8 @@ where
 {
     let ty = <ActorModelState<GA<S, M, T, R>, H> as U>::ty();
     for c in 0..count {
-        let n = if r.chance(1, 15) { 0 } else { 1 + r.below(if thorough() { 5 } else { 4 }) };
+        let n = if c % 40 == 39 { 24 + r.below(60) } else if r.chance(1, 15) { 0 } else { 1 + r.below(if thorough() { 5 } else { 4 }) };
+        if n >= 24 { out.stat("states-with-24-to-84-actors"); }
         // mostly well-formed states; sometimes an id outside 0..n or a per-actor vector of another length
         let id_bound = if r.chance(1, 12) { n + 1 } else { n };
         let mut lens = [n, n, n];
